@@ -121,3 +121,12 @@ theorem stampSeq_uptodate (outs ins : Nat → List String) (c0 : Nat) (f0 : File
         simp [this, hunprod q hq]
 
 end Gwf
+
+namespace Gwf.C16
+open Gwf
+
+/-- the declared (normalised) outputs of target id `t` -/
+def outsF (dir : String) (wf : List WT) (t : Nat) : List String := ((wtOf wf t).map (·.outsAbs dir)).getD []
+def insF (dir : String) (wf : List WT) (t : Nat) : List String := ((wtOf wf t).map (·.insAbs dir)).getD []
+
+end Gwf.C16
